@@ -249,7 +249,7 @@ func (l *RangeLoop) inLoop(b *ssa.BasicBlock) bool {
 // (its header test failed): the exit dominates b and nothing leaves the loop
 // early, or the header's exit edge is among the (threaded) guards at b.
 func (p *Program) completedAt(l *RangeLoop, b *ssa.BasicBlock) bool {
-	if len(l.earlyExits()) == 0 && (l.Exit == b || l.Exit.Dominates(b)) {
+	if len(p.loopEarlyExits(l)) == 0 && (l.Exit == b || l.Exit.Dominates(b)) {
 		// the exit block must be entered from the loop only (a loop inside one arm of a switch
 		// shares its exit block with the other arms)
 		only := true
@@ -323,6 +323,41 @@ func loopOver(fn *ssa.Function, pred func(ssa.Value) bool) []*RangeLoop {
 	for _, l := range rangeLoops(fn) {
 		if pred(stripConv(l.Over)) {
 			out = append(out, l)
+		}
+	}
+	return out
+}
+
+// loopEarlyExits is earlyExits with the program's knowledge about branches that cannot be
+// taken and calls that never return.
+func (p *Program) loopEarlyExits(l *RangeLoop) []*ssa.BasicBlock {
+	var out []*ssa.BasicBlock
+	set := l.blocks()
+	var returnsOnly func(b *ssa.BasicBlock, seen map[*ssa.BasicBlock]bool) bool
+	returnsOnly = func(b *ssa.BasicBlock, seen map[*ssa.BasicBlock]bool) bool {
+		if b == l.Exit || set[b] {
+			return false
+		}
+		if seen[b] {
+			return true
+		}
+		seen[b] = true
+		for _, x := range p.feasibleSuccs(b) {
+			if !returnsOnly(x, seen) {
+				return false
+			}
+		}
+		return true
+	}
+	for b := range set {
+		if b == l.Header {
+			continue
+		}
+		for _, s := range p.feasibleSuccs(b) {
+			if !set[s] && !returnsOnly(s, map[*ssa.BasicBlock]bool{}) {
+				out = append(out, b)
+				break
+			}
 		}
 	}
 	return out
